@@ -973,7 +973,7 @@ def escape_semantics(b, root, pid):
     return None, "neither a `str::replace` chain on the parameter nor a per-character match"
 
 
-@RULES.rule("R17.3", "depfile text: target and every dependency escaped; backslash before space", floor=12)
+@RULES.rule("R17.3", "depfile text: target and every dependency escaped (space, backslash, `$`, `#`); backslash before space", floor=14)
 def r17_3(rep):
     """Necessary: `make` must parse the depfile back to the same paths.
     Breaking edits: `escape` = `s.replace(' ', "\\ ").replace('\\', "\\\\")` turns `a b.h` into
@@ -1103,6 +1103,11 @@ def r17_3(rep):
         d = dict(pairs)
         rep.check(d.get("\\") == "\\\\", "escape:backslash", "`\\` becomes `\\\\` (%r)" % (d.get("\\"),), eb.loc(root))
         rep.check(d.get(" ") == "\\ ", "escape:space", "` ` becomes `\\ ` (%r)" % (d.get(" "),), eb.loc(root))
+        # make's other two specials in a prerequisite list (what `clang -M` writes for them): `$` starts a variable reference, `#` a comment
+        rep.check(d.get("$") == "$$", "escape:dollar", "`$` becomes `$$` (%r)" % (d.get("$"),) if d.get("$") == "$$" else
+                  "`$` is written verbatim: make reads `do$lar.h` as `do` + the variable `$l` + `ar.h`", eb.loc(root))
+        rep.check(d.get("#") == "\\#", "escape:hash", "`#` becomes `\\#` (%r)" % (d.get("#"),) if d.get("#") == "\\#" else
+                  "`#` is written verbatim: make treats the rest of the line as a comment and loses every later prerequisite", eb.loc(root))
         if kind == "sequential" and "\\" in d:
             at = [i for i, (f, _) in enumerate(pairs) if f == "\\"][0]
             early = [(f, t) for i, (f, t) in enumerate(pairs) if i < at and "\\" in t]
